@@ -9,6 +9,15 @@
    reset carries nc (candidates), k (list size set through the verif hook) and rk (position of every candidate's
    address in byte order, computed by the harness; the tie-break only ever compares these integers).
 
+   Votes are MODEL values 0..maxv: the binding sends them through a strictly monotone vote map to real totals (up to
+   beyond 2^64) and translates every total the real code reports back (a total that is none of the values put in is
+   logged as -1 and matches nothing).  reset carries the map: vm (catalogue index of RankingOps, or FreeMap), vals (the
+   real totals, decimal strings, informative) and mag (the length of the persisted candidate record the REAL encoder
+   produces for every value).  MagOK ties the magnitude classes the design model (Ranking.tla, MagOf) reasons with to
+   those real lengths: for a catalogue map the length differences are exactly the class differences, for a free map the
+   lengths do not decrease.  The verdicts themselves need no magnitudes: whatever the totals are, the list of every
+   block and the list after a restart must be the full sort.
+
    This is a property monitor.  The spec state st[b] is what the logged operations make of the parent's state; the
    logged account views must equal it; the logged list of the new block must equal FullSort(st[b]) - the right-hand
    side of the property - and no other list may change.  After a restart the list of the stable block must again be
@@ -40,7 +49,10 @@ Match(e, ST, TP, SB, fresh) ==
   /\ \A b \in DOMAIN ST : AccOf(Obs(e, b)) = ST[b]
   /\ \A b \in DOMAIN ST \ {fresh} : Obs(e, b).top = Pairs(TP[b], ST[b])
 
-TReset == /\ Ev("reset") /\ "nd" \notin DOMAIN E /\ E.err = ""
+MagOK(e) == /\ Len(e.mag) = e.maxv + 1 /\ Len(e.vals) = e.maxv + 1 /\ e.maxv >= 1
+            /\ IF e.vm = FreeMap THEN \A v \in 1..e.maxv : e.mag[v] <= e.mag[v + 1]
+               ELSE e.vm \in MagMaps /\ \A v \in 0..e.maxv : e.mag[v + 1] - e.mag[1] = MagOf(e.vm, v, e.maxv) - MagOf(e.vm, 0, e.maxv)
+TReset == /\ Ev("reset") /\ "nd" \notin DOMAIN E /\ E.err = "" /\ MagOK(E)
           /\ k' = E.k /\ rk' = [c \in 1..E.nc |-> E.rk[c]]
           /\ Cardinality({E.rk[c] : c \in 1..E.nc}) = E.nc
           /\ par' = <<>> /\ st' = (0 :> [c \in 1..E.nc |-> [r |-> 0, v |-> 0]])
